@@ -31,9 +31,9 @@ func (noTelemetry) SendMessage(json.Marshaler) {}
 
 type stubRuntime struct{ runtime.Instance }
 
-func (stubRuntime) Stop()                                         {}
-func (stubRuntime) SetContextStorage(runtime.Storage)             {}
-func (stubRuntime) ExecuteBlock(*types.Block) ([]byte, error)     { return nil, nil }
+func (stubRuntime) Stop()                                     {}
+func (stubRuntime) SetContextStorage(runtime.Storage)         {}
+func (stubRuntime) ExecuteBlock(*types.Block) ([]byte, error) { return nil, nil }
 
 type noTxState struct{}
 
@@ -43,10 +43,19 @@ type noBabe struct{}
 
 func (noBabe) VerifyBlock(*types.Header) error { return nil }
 
-type noFinality struct{}
+// simFinality stands in for GRANDPA's justification verification (decided by C19, not here): a
+// justification is "valid" iff it is the simulator's marker for a block of the main chain - the one
+// chain an honest supermajority could have signed. Everything else is refused.
+type simFinality struct{ s *ssim }
 
-func (noFinality) VerifyBlockJustification(common.Hash, uint, []byte) (uint64, uint64, error) {
-	return 0, 0, fmt.Errorf("no justification expected")
+func justMarker(h common.Hash) []byte { return append([]byte("J:"), h[:8]...) }
+
+func (f simFinality) VerifyBlockJustification(h common.Hash, n uint, j []byte) (uint64, uint64, error) {
+	if f.s.main[h] && string(j) == string(justMarker(h)) {
+		f.s.k.Probe("justification-accepted")
+		return uint64(n), 0, nil
+	}
+	return 0, 0, fmt.Errorf("invalid justification")
 }
 
 // importHandler is the stub for dot/core: it puts the executed block into the real block state.
@@ -68,10 +77,10 @@ func (h importHandler) HandleBlockImport(b *types.Block, _ *storage.TrieState, _
 
 type noNetwork struct{}
 
-func (noNetwork) AllConnectedPeersIDs() []peer.ID                                     { return nil }
-func (noNetwork) ReportPeer(peerset.ReputationChange, peer.ID)                        {}
-func (noNetwork) BlockAnnounceHandshake(*types.Header) error                          { return nil }
-func (noNetwork) GossipMessageExcluding(network.NotificationsMessage, peer.ID)        {}
+func (noNetwork) AllConnectedPeersIDs() []peer.ID                              { return nil }
+func (noNetwork) ReportPeer(peerset.ReputationChange, peer.ID)                 {}
+func (noNetwork) BlockAnnounceHandshake(*types.Header) error                   { return nil }
+func (noNetwork) GossipMessageExcluding(network.NotificationsMessage, peer.ID) {}
 func (noNetwork) GetRequestResponseProtocol(string, time.Duration, uint64) *network.RequestResponseProtocol {
 	return nil
 }
@@ -97,13 +106,14 @@ type respInfo struct {
 }
 
 type client struct {
-	k       *kernel.K
-	bs      *state.BlockState
-	ss      *state.InmemoryStorageState
-	f       *gsync.FullSyncStrategy
-	imports map[common.Hash]int
-	origin  map[*types.BlockData]*respInfo
-	handed  map[common.Hash]int
+	k               *kernel.K
+	bs              *state.BlockState
+	ss              *state.InmemoryStorageState
+	f               *gsync.FullSyncStrategy
+	imports         map[common.Hash]int
+	origin          map[*types.BlockData]*respInfo
+	handed          map[common.Hash]int
+	abandonedParent bool // this round handed a block whose imported parent was abandoned by finality meanwhile
 }
 
 type ssim struct {
@@ -115,6 +125,9 @@ type ssim struct {
 	servers []*server
 	cl      *client
 	salt    int
+	main    map[common.Hash]bool // blocks of the main chain (the only ones with valid justifications)
+	just    bool                 // per-run knob: responses may carry justifications that finalise during a round
+	stray   bool                 // per-run knob: responses may be well-formed chain pieces nobody asked for
 }
 
 func peerOf(i int) peer.ID { return peer.ID(fmt.Sprintf("srv-%d", i)) }
@@ -186,8 +199,10 @@ func runSync(k *kernel.K) {
 		length = k.Range(120, 300, "long-chain-len")
 	}
 	tip := g
+	s.main = map[common.Hash]bool{g.Hash: true}
 	for i := 0; i < length; i++ {
 		tip = s.produce(tip)
+		s.main[tip.Hash] = true
 	}
 	for i, f := 0, k.Choose(4, "forks"); i < f; i++ {
 		p := s.blocks[k.Choose(len(s.blocks), "fork-parent")]
@@ -195,6 +210,8 @@ func runSync(k *kernel.K) {
 			p = s.produce(p)
 		}
 	}
+	s.stray = k.Bool(1, 3, "knob-stray-fragments")
+	s.just = k.Bool(1, 2, "knob-justifications")
 	nsrv := k.Range(1, 3, "servers")
 	for i := 0; i < nsrv; i++ {
 		bs, _ := s.newBlockState()
@@ -212,7 +229,7 @@ func runSync(k *kernel.K) {
 	cbs, css := s.newBlockState()
 	c := &client{k: k, bs: cbs, ss: css, imports: map[common.Hash]int{}, origin: map[*types.BlockData]*respInfo{}, handed: map[common.Hash]int{}}
 	c.f = gsync.NewFullSyncStrategy(&gsync.FullSyncConfig{StorageState: css, TransactionState: noTxState{}, BabeVerifier: noBabe{},
-		FinalityGadget: noFinality{}, BlockImportHandler: importHandler{c}, Telemetry: noTelemetry{}, BlockState: cbs,
+		FinalityGadget: simFinality{s}, BlockImportHandler: importHandler{c}, Telemetry: noTelemetry{}, BlockState: cbs,
 		NumOfTasks: k.Range(1, 4, "num-tasks")})
 	c.f.VerifSetImportHook(c.onHandOver)
 	s.cl = c
@@ -262,6 +279,17 @@ func runSync(k *kernel.K) {
 					infos = append(infos, info2)
 				}
 			}
+			if s.stray && len(tasks) > 0 {
+				// further answers to the same requests (several peers answer, late answers of earlier rounds)
+				for x := k.Choose(4, "extra-results"); x > 0; x-- {
+					req := tasks[k.Choose(len(tasks), "extra-task")].VerifRequest()
+					sv := s.servers[k.Choose(len(s.servers), "task-server")]
+					respID++
+					res, info := s.exchange(sv, req, respID)
+					results = append(results, res)
+					infos = append(infos, info)
+				}
+			}
 			// results arrive in any order
 			for i := len(results) - 1; i > 0; i-- {
 				j := k.Choose(i+1, "result-order")
@@ -272,16 +300,23 @@ func runSync(k *kernel.K) {
 				infos[i], infos[j] = infos[j], infos[i]
 			}
 			k.Event("process", "%d results (queue %d, target %d)", len(results), c.f.VerifQueueLen(), c.f.VerifTarget())
+			c.abandonedParent = false
 			reps, err := c.process(results)
 			synctest.Wait()
 			if err != nil {
 				k.Event("process-error", "%v", err)
-				if strings.Contains(err.Error(), "failed to get parent header") {
+				if strings.Contains(err.Error(), "failed to get parent header") && !c.abandonedParent {
 					k.Violate("C32", "parents-first", "block-handed-before-parent-known", "Process failed because a block reached the importer before its parent: %v", err)
 				}
 			}
-			// every response that is not a hash-linked chain (or carries a forged hash) costs its sender reputation
+			// every response that is not a hash-linked chain (or carries a forged hash) costs its sender reputation.
+			// Process hands its reputation changes back only when it succeeds; when it stops with an error
+			// (importer refused a block, invalid justification) "rejected" is decided by the hand-over
+			// oracle alone (nothing of an invalid response reaches the importer).
 			for _, info := range infos {
+				if err != nil {
+					break
+				}
 				if info == nil || info.invalid == "" || !info.req.RequestField(messages.RequestedDataHeader) {
 					continue
 				}
@@ -307,6 +342,9 @@ func runSync(k *kernel.K) {
 					if err := sv.bs.SetFinalisedHash(t, uint64(s.salt), 0); err == nil {
 						sv.ref.Finalise(t)
 						sv.fin = t
+						if s.just && s.main[t] {
+							_ = sv.bs.SetJustification(t, justMarker(t))
+						}
 						// blocks on abandoned forks are gone from this server
 						for h := range sv.has {
 							if !sv.ref.Has(h) && !s.isAncestor(h, t) {
@@ -322,7 +360,7 @@ func runSync(k *kernel.K) {
 			fin, _ := c.bs.GetHighestFinalisedHeader()
 			if best.Number > fin.Number {
 				n := fin.Number + 1 + uint(k.Choose(int(best.Number-fin.Number), "client-fin-number"))
-				if h, err := c.bs.GetHashByNumber(n); err == nil {
+				if h, err := c.bs.GetHashByNumber(n); err == nil && (!s.just || s.main[h]) {
 					if err := c.bs.SetFinalisedHash(h, uint64(st+1), 0); err == nil {
 						k.Event("client-finalises", "#%d %s", n, cu.Short(h))
 						k.Probe("client-finalised")
@@ -397,6 +435,14 @@ func (c *client) onHandOver(bd *types.BlockData) {
 		return // the importer skips blocks it already has
 	}
 	if ok, _ := c.bs.HasHeader(bd.Header.ParentHash); !ok {
+		if c.imports[bd.Header.ParentHash] > 0 {
+			// the parent WAS handed over and imported before this block; a justification imported in
+			// between finalised a competing chain and the block state discarded the parent's fork. The
+			// order the statement demands (parent first) was kept; the importer refuses the block.
+			k.Probe("parent-imported-then-abandoned-by-finality")
+			c.abandonedParent = true
+			return
+		}
 		k.Violate("C32", "parents-first", "block-handed-before-parent-known", "block #%d %s handed to the importer while its parent %s is unknown", bd.Header.Number, cu.Short(hh), cu.Short(bd.Header.ParentHash))
 	}
 	c.handed[hh]++
@@ -426,7 +472,32 @@ func (s *ssim) exchange(sv *server, req *messages.BlockRequestMessage, id int) (
 		return gsync.VerifNewTaskResult(who, req, &messages.BlockResponseMessage{}, false), nil
 	}
 	what := "honest"
-	if sv.byz {
+	if s.stray && req.RequestField(messages.RequestedDataHeader) && k.Bool(1, 3, "stray-fragment") {
+		// the network / a lazy server answers with a well-formed chain piece that is not the one asked
+		// for: any block of the tree with a few of its ancestors (forks, pieces below and across the
+		// client's finalised height, disconnected pieces). Hash-linked and honestly hashed, so nothing
+		// in the statement allows refusing it outright - but nothing may be imported before its parent.
+		tipb := s.blocks[1+k.Choose(len(s.blocks)-1, "stray-tip")]
+		n := 1 + k.Choose(6, "stray-len")
+		var seg []*types.BlockData
+		for x := tipb; x != nil && x.Number > 0 && len(seg) < n; x = s.all.Blocks[x.Parent] {
+			bd := &types.BlockData{Hash: x.Hash, Header: x.Header, Body: body()}
+			if s.just && s.main[x.Hash] && k.Bool(1, 3, "stray-justification") {
+				j := justMarker(x.Hash)
+				bd.Justification = &j
+				k.Fault("justification-in-response")
+			}
+			seg = append([]*types.BlockData{bd}, seg...)
+		}
+		if req.Direction == messages.Descending {
+			for i, j := 0, len(seg)-1; i < j; i, j = i+1, j-1 {
+				seg[i], seg[j] = seg[j], seg[i]
+			}
+		}
+		resp.BlockData = seg
+		k.Fault("stray-fragment")
+		what = "stray"
+	} else if sv.byz {
 		what = s.mutate(resp, req)
 	} else if k.Bool(1, 8, "partial-response") && len(resp.BlockData) > 1 {
 		// an honest server may answer with fewer blocks than asked
@@ -500,7 +571,7 @@ func (s *ssim) mutate(resp *messages.BlockResponseMessage, req *messages.BlockRe
 		return "byz-empty"
 	}
 	k.Fault("byzantine-response")
-	switch k.Choose(7, "byz-kind") {
+	switch k.Choose(8, "byz-kind") {
 	case 0: // forge the stated hash of one block
 		i := k.Choose(len(bd), "byz-index")
 		cp := *bd[i]
@@ -552,6 +623,16 @@ func (s *ssim) mutate(resp *messages.BlockResponseMessage, req *messages.BlockRe
 		fake := types.NewHeader(h.ParentHash, h.StateRoot, common.Hash{0xee}, h.Number, h.Digest)
 		bd[i] = &types.BlockData{Hash: bd[i].Hash, Header: fake, Body: body()}
 		return "byz-forged-header-honest-hash"
+	case 7: // a justification that is not valid for the block it is attached to
+		i := k.Choose(len(bd), "byz-index")
+		if bd[i].Header == nil {
+			return "byz-noop"
+		}
+		cp := *bd[i]
+		j := justMarker(common.Hash{0xba, 0xd0, byte(i)})
+		cp.Justification = &j
+		bd[i] = &cp
+		return "byz-forged-justification"
 	default: // duplicate a block inside the response
 		i := k.Choose(len(bd), "byz-index")
 		resp.BlockData = append(bd[:i+1:i+1], bd[i:]...)
